@@ -136,7 +136,7 @@ class Step(t.NamedTuple):
 def gen_step(model, rels: list[Relation], rng: random.Random, weights: dict[str, int] | None = None) -> Step:
     """Pick one operation. `run` performs it on the implementation (may raise)."""
     w = {"create": 4, "delitem": 3, "insert": 3, "setitem": 1, "append": 2, "remove": 2, "setattr": 2, "clear": 1,
-         "create_clash": 1, "create_nested": 2, "delete_referenced": 2}
+         "create_clash": 1, "create_nested": 2, "delete_referenced": 2, "role_set": 2}
     if weights:
         w.update(weights)
     for _ in range(50):
@@ -183,6 +183,38 @@ def gen_step(model, rels: list[Relation], rng: random.Random, weights: dict[str,
                 kw["no_such_attribute_xyz"] = 1
             return Step("create_nested", rel, {"kw": {"name": "outer", attr: f"NewObject({hint})"}, "uuid": inner, "bad": fail},
                         lambda lst=lst, kw=kw: lst.create(**kw))
+        if op == "role_set":
+            # (re)assign a single-valued role attribute with a NewObject, possibly of another class than the current one
+            cands = [r for r in rels if r.kind in CONTAIN and nested_slots(r)]
+            if not cands:
+                continue
+            r2 = rng.choice(cands)
+            try:
+                l2 = r2.get()
+            except Exception:
+                continue
+            if not len(l2):
+                continue
+            o = l2[rng.randrange(len(l2))]
+            attr, hint = rng.choice(nested_slots(r2))
+            # prefer a slot that is already filled, and a class different from the current one (role replacement)
+            filled = []
+            for cand in list(l2)[:12]:
+                for a, h in nested_slots(r2):
+                    try:
+                        cur = getattr(cand, a)
+                    except Exception:
+                        continue
+                    if cur is not None:
+                        filled.append((cand, a, h, type(cur).__name__))
+            cur_cls = None
+            if filled and rng.random() < 0.7:
+                o, attr, hint, cur_cls = rng.choice(filled)
+            if hint == "LiteralNumericValue":
+                hint = rng.choice([h for h in ("LiteralNumericValue", "LiteralStringValue", "LiteralBooleanValue") if h != cur_cls])
+            from capellambse.model import NewObject
+            return Step("role_set", None, {"uuid": getattr(o, "uuid", None), "attr": attr, "hint": hint},
+                        lambda o=o, attr=attr, hint=hint: setattr(o, attr, NewObject(hint)))
         if op == "delete_referenced":
             tgt = referenced_target(model, rng)
             if tgt is None:
